@@ -145,8 +145,8 @@ package mr
 //@   prop C07
 //@   opaque buildOptions, buildSource
 //@   loop 1 iteration-ensures [waits-on] calls(on("recv", collector)) == 1 && ret(on("recv", collector), 1)
-//@   ensures [returns-when-collector-closed] calls(on("recv", local(collector))) == 1 && !ret(on("recv", local(collector)), 1)
-//@   panic-ensures [re-raised-from-panic-channel] calls(on("recv", local(panicChan).channel)) == 1
+//@   ensures [returns-when-collector-closed] tail(calls(on("recv", local(collector))) == 1 && !ret(on("recv", local(collector)), 1) && calls(on("recv", local(panicChan).channel)) == 0)
+//@   panic-ensures [re-raised-from-panic-channel] tail(calls(on("recv", local(panicChan).channel)) == 1)
 //@ func ForEach$1
 //@   prop C07
 //@   ensures [item-to-mapper] calls(mapper, item) == 1
